@@ -377,6 +377,10 @@ func (ex *Exec) choose(conds []*Term) int {
 	if ex.specDepth > 0 {
 		panic(specAbort{})
 	}
+	if ex.initLenient > 0 {
+		// package initialisers never fork a path: what depends on unknown data stays opaque
+		panic(unsupported("branch on unknown data inside a package initialiser"))
+	}
 	ex.Branches++
 	if ex.dpos < len(ex.decisions) {
 		ex.checkSite(len(conds))
@@ -424,6 +428,9 @@ func (ex *Exec) chooseN(n int) int {
 	}
 	if ex.specDepth > 0 {
 		panic(specAbort{})
+	}
+	if ex.initLenient > 0 {
+		panic(unsupported("choice inside a package initialiser"))
 	}
 	ex.Branches++
 	if ex.dpos < len(ex.decisions) {
@@ -1182,6 +1189,11 @@ func (ex *Exec) runInitLenient(fn *ssa.Function) {
 			if u, ok := r.(unsupportedErr); ok {
 				if ex.verbose {
 					fmt.Fprintf(os.Stderr, "init %s: gave up: %s\n", fn.Pkg.Pkg.Path(), u.msg)
+				}
+				if strings.HasPrefix(fn.Pkg.Pkg.Path(), modPath) {
+					// a package of the repository whose initialiser was cut short leaves globals
+					// at their zero values: nothing decided on such a run can be trusted
+					ex.addInconclusive("package initialiser of " + fn.Pkg.Pkg.Path() + " could not be executed completely: " + u.msg)
 				}
 				return
 			}
